@@ -199,6 +199,12 @@ func (s *Scanner) getData(bo *retry.Backoffer) error {
 		zap.Bool("reverse", s.reverse),
 		zap.Uint64("txnStartTS", s.startTS()))
 	sender := locate.NewRegionRequestSender(s.snapshot.store.GetRegionCache(), s.snapshot.store.GetTiKVClient(), s.snapshot.store.GetOracle())
+	if s.reverse && len(s.nextStartKey) > 0 && len(s.nextEndKey) > 0 && kv.CmpKey(s.nextStartKey, s.nextEndKey) >= 0 {
+		// The remaining range [lower bound, cursor) is empty: do not send a request for it
+		// (the region located by the cursor's end key would not even contain the lower bound).
+		s.cache, s.idx, s.eof = nil, 0, true
+		return nil
+	}
 	var reqEndKey, reqStartKey []byte
 	var loc *locate.KeyLocation
 	var resolvingRecordToken *int
